@@ -95,6 +95,10 @@ def _mesh_spec(rng: random.Random) -> dict:
     cells = [(i, j, k) for i in range(nx) for j in range(ny) for k in range(nz)]
     keep = [c for c in cells if rng.random() < 0.8] or [cells[0]]
     spec: Dict[str, Any] = {"xs": xs, "ys": ys, "zs": zs, "cells": [list(c) for c in keep]}
+    pairs = [(a, b) for a in keep for b in keep if (a[0] + 1, a[1], a[2]) == b]
+    if pairs and rng.random() < 0.4:  # a merged patch pair: the vertices of the common face exist twice
+        a, b = rng.choice(pairs)
+        spec["merged"] = [list(a), list(b)]
     if rng.random() < 0.5:
         spec["round"] = _round_spec(rng, rng.choice(["Cylinder", "SemiCylinder", "Frustum"]), [10.0, 0.0, 0.0])
     return spec
@@ -191,8 +195,16 @@ def _build_mesh(spec: dict):
 
     mesh = cb.Mesh()
     xs, ys, zs = spec["xs"], spec["ys"], spec["zs"]
+    merged = spec.get("merged")
     for i, j, k in spec["cells"]:
-        mesh.add(cb.Box([xs[i], ys[j], zs[k]], [xs[i + 1], ys[j + 1], zs[k + 1]]))
+        box = cb.Box([xs[i], ys[j], zs[k]], [xs[i + 1], ys[j + 1], zs[k + 1]])
+        if merged and [i, j, k] == merged[0]:
+            box.set_patch("right", "master")
+        if merged and [i, j, k] == merged[1]:
+            box.set_patch("left", "slave")
+        mesh.add(box)
+    if merged:
+        mesh.merge_patches("master", "slave")
     shape = None
     if spec.get("round"):
         shape, extra = _build_round(spec["round"])
@@ -245,7 +257,7 @@ def _hex(rng: random.Random, kind: str) -> List[List[float]]:
     return (pts + off).tolist()
 
 
-def _viewpoint(rng: random.Random, pts: List[List[float]], face_on: bool) -> Tuple[List[float], List[float]]:
+def _viewpoint(rng: random.Random, pts: List[List[float]], mode: str) -> Tuple[List[float], List[float]]:
     import numpy as np
 
     p = np.array(pts)
@@ -267,11 +279,17 @@ def _viewpoint(rng: random.Random, pts: List[List[float]], face_on: bool) -> Tup
         a, b, cc, d = (p[i] for i in cyc)
         n = np.cross(cc - a, d - b)
         normals.append(n / np.linalg.norm(n))
-    if face_on:
+    if mode == "face-on":
         i = rng.randrange(6)
         o = direction(normals[i])
         j = rng.choice([k for k in range(6) if abs(float(np.dot(normals[k], normals[i]))) < 0.7] or [0])
         t = direction(normals[j])
+    elif mode == "edge-on":  # between two sides: the dubious views
+        i = rng.randrange(6)
+        j = rng.choice([k for k in range(6) if abs(float(np.dot(normals[k], normals[i]))) < 0.7] or [0])
+        o = normals[i] + rng.uniform(0.85, 1.15) * normals[j] + 0.1 * direction(None)
+        o /= np.linalg.norm(o)
+        t = direction(None)
     else:
         o, t = direction(None), direction(None)
     dist = rng.choice([4.0, 10.0, 100.0])
@@ -368,21 +386,24 @@ class C18(core.Check):
     props_module = "CBV.Props.C18"
     workers = 8
     rule = (
-        "find cases: a mesh of 1..12 boxes on a jittered lattice (random omissions), half of them with a cylinder / "
+        "find cases: a mesh of 1..12 boxes on a jittered lattice (random omissions, 40% with a merged patch pair that "
+        "duplicates four vertices), half of them with a cylinder / "
         "semi-cylinder / frustum, 10 queries each: spheres centred at or near a vertex or anywhere, radius default TOL, "
         "a multiple (0.9 .. 2) of the distance to another vertex, zero or negative; planes through a vertex with axis, "
-        "random or vertex-spanned normals of any length, zero normal included; queries closer than 1e-3 relative to a "
-        "threshold are skipped. shape cases: Cylinder, SemiCylinder, Frustum, Elbow, ExtrudedRing (5/8 segments), "
+        "random or vertex-spanned normals of any length, zero normal included; sphere queries closer than 1e-3 relative "
+        "to the radius and plane queries with a vertex between TOL/3 and 3 TOL from the plane are skipped. shape cases: Cylinder, SemiCylinder, Frustum, Elbow, ExtrudedRing (5/8 segments), "
         "RoundSolidShape over OneCoreDisk/QuarterDisk, random axis/radius/length, optionally chained, find_core and "
         "find_shell on both end faces. reorient cases: box / warped (corner jitter up to 12%) / sheared parallelepiped / "
-        "frustum-like / rotated hexahedra with dyadic coordinates, a viewpoint (60% roughly face-on, 40% anywhere), all 48 "
-        "initial numberings plus 8 arbitrary scrambles of the eight points; non-convex blocks as malformed stream. "
+        "frustum-like / rotated hexahedra with dyadic coordinates, a viewpoint (40% roughly face-on, 40% anywhere, 20% between two sides), all 48 "
+        "initial numberings plus 8 arbitrary scrambles of the eight points (quick tier: all 48 for every fourth block, "
+        "13 of them and 4 scrambles for the others); non-convex blocks as malformed stream. "
         "Non-trivial = at least one vertex found or a re-orientation that returns; distinct = different geometry/query."
     )
     assumptions = [
         "float64 evaluation of norms / dot products agrees with exact arithmetic away from the thresholds "
         "(queries within 1e-3 relative of a threshold and views whose 2nd/3rd best triangle differ by < 1e-9 are skipped)",
-        "scipy.spatial.ConvexHull is an oracle: the model receives the simplices the implementation obtained",
+        "scipy.spatial.ConvexHull is an oracle: the model receives the simplices the implementation obtained; a Lean "
+        "validator checks on every case that they form a closed convex triangulation of the eight points (relative 1e-9)",
         "observer different from the block centre and ceiling off the observer axis (the code computes with nan otherwise)",
         "python list / set / sorted semantics of the finders and of ViewpointReorienter are modelled by hand and validated "
         "by correspondence",
@@ -411,12 +432,17 @@ class C18(core.Check):
         for n in range(21 if quick else 280):
             cases.append({"kind": "shape", "round": _round_spec(rng, types[n % len(types)], [0.0, 0.0, 0.0])})
         kinds = ["box", "warped", "par", "frustum", "rotated", "warped"]
-        for n in range(18 if quick else 400):
+        for n in range(28 if quick else 400):
             kind = kinds[n % len(kinds)]
             pts = _hex(rng, kind)
-            obs, ceil = _viewpoint(rng, pts, rng.random() < 0.6)
-            scr = [rng.sample(range(8), 8) for _ in range(8)]
-            cases.append({"kind": "reorient", "hex": kind, "pts": pts, "obs": obs, "ceil": ceil, "scrambles": scr})
+            obs, ceil = _viewpoint(rng, pts, rng.choice(["face-on", "face-on", "anywhere", "anywhere", "edge-on"]))
+            if quick and n % 4:  # a sample of the 48 (identity, a mirrored one, 10 others) and 4 scrambles
+                nums = [list(SYM48[0]), list(rng.choice(SYM48[1:]))] + [list(p) for p in rng.sample(SYM48, 10)]
+                nums.append([1, 0, 3, 2, 5, 4, 7, 6])
+                nums += [rng.sample(range(8), 8) for _ in range(4)]
+            else:  # all 48 initial numberings and 8 arbitrary scrambles of the eight points
+                nums = [list(p) for p in SYM48] + [rng.sample(range(8), 8) for _ in range(8)]
+            cases.append({"kind": "reorient", "hex": kind, "pts": pts, "obs": obs, "ceil": ceil, "numberings": nums})
         # malformed stream: one corner pulled into the block (not convex)
         for _ in range(3 if quick else 30):
             import numpy as np
@@ -425,8 +451,9 @@ class C18(core.Check):
             c = np.array(pts).mean(axis=0)
             k = rng.randrange(8)
             pts[k] = (np.round((c + 0.25 * (np.array(pts[k]) - c)) * 64) / 64).tolist()
-            obs, ceil = _viewpoint(rng, pts, False)
-            cases.append({"kind": "reorient", "hex": "nonconvex", "pts": pts, "obs": obs, "ceil": ceil, "scrambles": []})
+            obs, ceil = _viewpoint(rng, pts, "anywhere")
+            nums = [list(p) for p in SYM48[::6]]
+            cases.append({"kind": "reorient", "hex": "nonconvex", "pts": pts, "obs": obs, "ceil": ceil, "numberings": nums})
         return cases
 
     @staticmethod
@@ -434,7 +461,7 @@ class C18(core.Check):
         r = rng.random()
         off = [0.0, 0.0, 0.0]
         if rng.random() < 0.3:
-            off = [rng.choice([-1, 1]) * rng.choice([1e-9, 3e-8, 1e-5, 0.125]) for _ in range(3)]
+            off = [rng.choice([-1, 1]) * rng.choice([1e-9, 1e-8, 3e-6, 1e-5, 0.125]) for _ in range(3)]
         if r < 0.5:
             q: Dict[str, Any] = {"type": "sphere"}
             if rng.random() < 0.75:
@@ -477,6 +504,9 @@ class C18(core.Check):
 
         import classy_blocks as cb
 
+        from classy_blocks.util import constants
+
+        tol = float(constants.TOL)
         mesh, _ = _build_mesh(case["mesh"])
         verts = [np.array(v.position, dtype=float) for v in mesh.vertices]
         index = {id(v): i for i, v in enumerate(mesh.vertices)}
@@ -500,7 +530,7 @@ class C18(core.Check):
                     radius = float(rad[1])
                 res["radius"] = radius
                 found = finder.find_in_sphere(centre, radius)
-                reff = TOL if radius is None else radius
+                reff = tol if radius is None else radius
                 dist = [float(np.linalg.norm(v - centre)) for v in verts]
                 res["boundary"] = any(abs(d - reff) < 1e-3 * abs(reff) + 1e-12 for d in dist) and reff > 0
             else:
@@ -519,11 +549,11 @@ class C18(core.Check):
                     dist = [abs(float(np.dot(v - centre, normal))) / nn for v in verts]
                     # a span normal can be (nearly) zero: treat tiny normals as boundary
                     res["boundary"] = nn < 1e-6
-                res["boundary"] = res.get("boundary", False) or any(1e-8 <= d <= 1e-5 for d in dist)
+                res["boundary"] = res.get("boundary", False) or any(tol / 3 <= d <= tol * 3 for d in dist)
             res["found"] = sorted(index[id(v)] for v in found)
             res["is_set"] = isinstance(found, set)
             out.append(res)
-        return {"verts": [v.tolist() for v in verts], "queries": out}
+        return {"verts": [v.tolist() for v in verts], "queries": out, "tol": tol}
 
     def _impl_shape(self, case: dict) -> Any:
         import numpy as np
@@ -562,9 +592,7 @@ class C18(core.Check):
         from classy_blocks.modify.reorient import viewpoint as vp
 
         base = np.array(case["pts"], dtype=float)
-        numberings = [list(p) for p in SYM48] + [list(s) for s in case["scrambles"]]
-        if case["hex"] == "nonconvex":
-            numberings = numberings[::6]
+        numberings = case.get("numberings") or [list(p) for p in SYM48]
         record: Dict[str, Any] = {}
         real_hull = vp.ConvexHull
         real_aligned = vp.ViewpointReorienter._get_aligned
@@ -635,6 +663,10 @@ class C18(core.Check):
                     continue
                 tris = ";".join("-".join(map(str, s)) for s in r["simplices"]) or "-"
                 reqs.append(f"c18.reorient {_pt(case['obs'])} {_pt(case['ceil'])} {_pts(base[r['num']])} {tris}")
+            r0 = impl["results"][0] if impl["results"] else None
+            if r0 and r0["simplices"] is not None and len(r0["simplices"]) == 12:  # the hull oracle's answer, validated
+                tris = ";".join("-".join(map(str, s)) for s in r0["simplices"])
+                reqs.append(f"c18.hull 1/1000000000 {_pts(base[r0['num']])} {tris}")
             ok = [r for r in impl["results"] if "out" in r and -1 not in r["out"]]
             if ok and case["hex"] != "nonconvex" and _clear_view(case["pts"], case["obs"], case["ceil"]):
                 reqs.append(f"c18.canon {_pt(case['obs'])} {_pt(case['ceil'])} {_pts(base[ok[0]['out']])}")
@@ -672,6 +704,11 @@ class C18(core.Check):
                 cls = {"err notconvex": "DegenerateGeometryError", "err degenerate": "DegenerateGeometryError", "err index": "IndexError"}
                 if cls.get(ans) != r["err"]:
                     return f"numbering {r['num']}: implementation raises {r['err']}, model {ans}"
+        r0 = impl["results"][0] if impl["results"] else None
+        if r0 and r0["simplices"] is not None and len(r0["simplices"]) == 12:
+            if model[pos] != "ok":
+                return f"validator: what scipy.spatial.ConvexHull answered is not a closed convex triangulation: {model[pos]}"
+            pos += 1
         if pos < len(model):  # the validator request
             if model[pos] != "ok":
                 return f"validator Canonical rejects the implementation's result in a clear view: {model[pos]}"
@@ -688,13 +725,14 @@ class C18(core.Check):
     def _oracle_find(self, case: dict, impl: Any) -> List[dict]:
         out: List[dict] = []
         verts = [_F(v) for v in impl["verts"]]
-        tol2 = Fraction(TOL) ** 2
+        tol = Fraction(impl["tol"])  # the library's merge tolerance (constants.TOL), read at run time
+        tol2 = tol**2
         for q in impl["queries"]:
             if q["boundary"]:
                 continue
             c = _F(q["centre"])
             if q["type"] == "sphere":
-                r = Fraction(TOL) if q["radius"] is None else Fraction(float(q["radius"]))
+                r = tol if q["radius"] is None else Fraction(float(q["radius"]))
                 exp = [i for i, v in enumerate(verts) if r > 0 and _dot(_sub(v, c), _sub(v, c)) < r * r]
                 fn = "find_in_sphere"
             else:
@@ -851,7 +889,12 @@ class C18(core.Check):
     def classify(self, case, impl):
         if case["kind"] == "find":
             b = sum(1 for q in impl["queries"] if q["boundary"])
-            return "find:" + ("round+boxes" if case["mesh"].get("round") else "boxes") + (":some-boundary-skipped" if b else "")
+            return (
+                "find:"
+                + ("round+boxes" if case["mesh"].get("round") else "boxes")
+                + (":duplicated-vertices" if case["mesh"].get("merged") else "")
+                + (":some-boundary-skipped" if b else "")
+            )
         if case["kind"] == "shape":
             return "shape:" + case["round"]["type"] + (":chained" if case["round"].get("chain") else "")
         res = impl["results"]
@@ -860,7 +903,8 @@ class C18(core.Check):
             return "reorient:nonconvex:" + state
         clear = "clear" if _clear_view(case["pts"], case["obs"], case["ceil"]) else "dubious"
         tie = ":near-tie" if min(r["gap"] for r in res) < TIE else ""
-        return f"reorient:{case['hex']}:{clear}:{state}{tie}"
+        other = ":restructured" if any("out" in r and tuple(r["out"]) not in SYM48 for r in res) else ""
+        return f"reorient:{case['hex']}:{clear}:{state}{tie}{other}"
 
 
 if __name__ == "__main__":
